@@ -7,6 +7,7 @@ import OapiVerif.Model.Names
 import OapiVerif.Model.Responses
 import OapiVerif.Model.Embed
 import OapiVerif.Model.Security
+import OapiVerif.Model.Enums
 /-!
 Line-protocol driver: one JSON object per line in, one per line out.
 `{"fn": <name>, ...}` ↦ `{"ok": <result>}` or `{"err": "bad-op"}` (never a default).
@@ -311,8 +312,27 @@ def providerD (j : Json) : Except String Json := do
   pure (Json.mkObj [("method", hexStr r'.method), ("path", hexStr r'.path), ("query", kvsJson r'.query),
     ("headers", kvsJson r'.headers), ("body", hexStr r'.body), ("rawQuery", hexStr (encodeQuery r'.query))])
 
+def getCpsList (j : Json) (k : String) : Except String (List (List Nat)) := do
+  let a ← j.getObjValAs? (Array (Array Nat)) k
+  pure (a.toList.map (·.toList))
+
+def enumNamesD (j : Json) : Except String Json := do
+  let U ← getUni j
+  let names ← getCpsList j "names"
+  let values ← getCpsList j "values"
+  match Enums.sanitizeEnumNames U names values with
+  | none => pure (Json.mkObj [("pairs", Json.null)])
+  | some ps => pure (Json.mkObj [("pairs", Json.arr (ps.map fun p => Json.arr #[jcps p.1, jcps p.2]).toArray)])
+
+def goQuoteD (j : Json) : Except String Json := do
+  let s ← getHex j "s"
+  let q := Enums.quoteGo s
+  pure (Json.mkObj [("quoted", hexStr q), ("unquoted", match Enums.unquoteGo q with | some r => Json.str (hexStr r) | none => Json.null)])
+
 def dispatch (fn : String) (j : Json) : Except String Json :=
   match fn with
+  | "enumNames" => enumNamesD j
+  | "goQuote" => goQuoteD j
   | "secDefs" => secDefsD j
   | "provider" => providerD j
   | "prune" => prune j
